@@ -490,6 +490,11 @@ def save (t : Tree) (omitted : Nat → Bool) : Image :=
     nodes := (t.nodes.filter (fun kv => !omitted kv.1)).map (fun kv => (kv.1, ⟨kv.2.data t.sizes, kv.2.minN⟩)),
     leaves := t.leaves }
 
+/-- `tree.save(path_elsewhere, sparseness=...)` while the tree stays in use: the image written, and
+the in-memory tree, which `save` leaves exactly as it was (every node is written through the target
+storage and handed back to the storage it was loaded from; contents and dirty flags are untouched) -/
+def saveElsewhere (t : Tree) (omitted : Nat → Bool) : Tree × Image := (t, save t omitted)
+
 /-- `_load_v3` .. `_load_v6` (version 3: metadata without `min_n_below`, then `_fill_min_n_below`) -/
 def load (fixed : Bool) (im : Image) (version : Nat) (cacheMax : Option Nat) : Except Err Tree :=
   if im.leaves.isEmpty then .error .value     -- "Empty tree!"
